@@ -41,6 +41,8 @@ var polluters = map[string]string{
 	"mutResp":   "导入《@测试》\n令应 = （新建HTTP响应：200、“ok”）\n以{应之头部}（写入：“Set-Cookie”、“sid=1”）\n应之头部#“X” = “y”\n令应二 = （新建HTTP响应：200、【1】）\n以{应二之头部}（写入：“Set-Cookie”、“sid=2”）\n输出应之头部\n",
 	// executed as a FILE (LoadFile) next to the module file 工具/计算.zn
 	"fileImport": "导入“工具-计算”\n输出（算：1）\n",
+	// executed as a FILE in ANOTHER directory, next to a module file of the same name 工具/计算.zn with OTHER content
+	"fileImportOther": "导入“工具-计算”\n输出（算：1）\n",
 	// not a program: the INPUT-VARIABLE TEXT of a request (exec.ExecVarInputText, as the playground handler evaluates it)
 	"varInputInc": "甲 = 以数值（自增：5）；乙 = 数值",
 	// names declared inside the body of a redefined constructor of a predefined type (that body runs in a frame of the native-code module)
@@ -96,7 +98,14 @@ func handleIso(raw json.RawMessage) interface{} {
 			z = mk()
 		}
 		var err error
-		if p == "fileImport" {
+		if p == "fileImportOther" {
+			od := filepath.Join(dir, fmt.Sprintf("别处%d", k))
+			os.MkdirAll(filepath.Join(od, "工具"), 0755)
+			os.WriteFile(filepath.Join(od, "工具", "计算.zn"), []byte("如何算？\n    输入甲\n    输出甲 + 100\n"), 0644)
+			op := filepath.Join(od, "污.zn")
+			os.WriteFile(op, []byte(polluters[p]), 0644)
+			_, err = z.LoadFile(op).Execute(r.ElementMap{})
+		} else if p == "fileImport" {
 			_, err = runFile(z, fmt.Sprintf("污%d.zn", k), polluters[p])
 		} else if p == "varInputInc" {
 			var in r.ElementMap
